@@ -565,7 +565,8 @@ Proof.
   cbn [register_all]. unfold register_sample_contig. rewrite stored_name_nonempty by assumption.
   unfold collection, sample_desc, contig_desc in *.
   assert (Ex : existsb (is_named sn) (coll ++ [(sn, pre)]) = true).
-  { rewrite existsb_app. cbn. unfold is_named at 2. cbn [fst]. rewrite name_eqb_refl. apply orb_true_r. }
+  { rewrite existsb_app. cbn [existsb]. unfold is_named. cbn [fst]. rewrite name_eqb_refl. cbn [orb].
+    apply orb_true_r. }
   rewrite Ex. rewrite (find_app_none _ _ _ Hn). cbn [find].
   unfold is_named at 1. cbn [fst]. rewrite name_eqb_refl. cbn [snd].
   destruct (existsb (is_named cn) pre); [reflexivity|].
@@ -603,6 +604,15 @@ Proof.
   subst. apply in_map. assumption.
 Qed.
 
+Lemma NoDup_snoc {A} (l : list A) a : NoDup l -> ~ In a l -> NoDup (l ++ [a]).
+Proof.
+  induction l as [|x l IH]; cbn; intros ND Hn; [constructor; [intros []|constructor]|].
+  inversion ND; subst. constructor.
+  - intro Hin. apply in_app_or in Hin. destruct Hin as [Hin|[E|[]]]; [contradiction|].
+    subst. apply Hn. left. reflexivity.
+  - apply IH; [assumption|]. intro. apply Hn. right. assumption.
+Qed.
+
 Lemma sample_reg_some : forall cs pre pre', sample_reg pre cs = Some pre' -> NoDup (map fst pre) ->
   pre' = pre ++ map (fun c => (fst c, [])) cs /\ NoDup (map fst pre ++ map fst cs).
 Proof.
@@ -611,8 +621,7 @@ Proof.
   - destruct (existsb (is_named (fst c)) pre) eqn:E; [discriminate|].
     apply existsb_named_false in E.
     assert (ND' : NoDup (map fst (pre ++ [(fst c, [])]))).
-    { rewrite map_app. cbn [map fst]. apply NoDup_rev_iff. rewrite rev_app_distr. cbn.
-      constructor; [rewrite <- in_rev; assumption | apply NoDup_rev_iff; rewrite rev_involutive; assumption]. }
+    { rewrite map_app. cbn [map fst]. apply NoDup_snoc; assumption. }
     destruct (IH _ _ H ND') as [E1 E2]. split.
     + rewrite E1, <- app_assoc. reflexivity.
     + rewrite map_app, <- app_assoc in E2. exact E2.
@@ -660,9 +669,9 @@ Proof.
         - cbn [fst]. intro E. apply Hn. rewrite E. apply in_map. assumption. }
       destruct (IH (coll ++ [(sn, pre')]) Hd' (conj ND' Hne')) as [IH1 IH2].
       split.
-      * intro Hok. inversion Hok; subst. rewrite IH1 by assumption.
-        rewrite <- app_assoc. cbn [shape_of build map fst snd app]. rewrite Epre.
-        do 3 f_equal. rewrite map_map. reflexivity.
+      * intro Hok. inversion Hok as [|? ? Hok1 Hok2]; subst x l. etransitivity; [apply IH1; assumption|].
+        f_equal. rewrite <- app_assoc. f_equal. cbn [shape_of build map fst snd app]. rewrite Epre.
+        do 2 f_equal. cbn [map fst app]. f_equal. rewrite map_map. reflexivity.
       * intro Hbad. apply IH2. intro Hok. apply Hbad. constructor; [|assumption]. exact NDc.
     + split.
       * intro Hok. inversion Hok; subst. exfalso. apply (sample_reg_none _ _ Esr). assumption.
@@ -687,4 +696,309 @@ Proof.
   intros [ND _] Hc. split.
   - unfold shape_of. rewrite map_map. cbn [fst]. exact ND.
   - unfold shape_of. apply Forall_map. cbn [snd]. exact Hc.
+Qed.
+
+(* ---------------------------------------------------------------- 6. reader and round trip *)
+Section RoundTrip.
+  Variable get : seg_desc -> outcome (list N).
+
+  (* descriptor d yields forward piece x *)
+  Definition reads (d : seg_desc) (x : list N) : Prop :=
+    exists b, get d = Ok b /\ (if d_rc d then rcs b else b) = x.
+
+  Lemma reconstruct_later k : forall ds xs, Forall2 reads ds xs -> Forall (fun y => k <= length y)%nat xs ->
+    forall acc, reconstruct_loop get k false ds acc = Ok (acc ++ tails k xs).
+  Proof.
+    induction 1 as [|d x ds xs (b & Eg & Eb) _ IH]; intros Hl acc.
+    - cbn. rewrite app_nil_r. reflexivity.
+    - inversion Hl; subst. cbn [reconstruct_loop]. rewrite Eg. cbn [obnd].
+      destruct (Nat.ltb_spec (length (if d_rc d then rcs b else b)) k); [lia|].
+      rewrite IH by assumption. unfold tails. cbn [map concat]. rewrite app_assoc. reflexivity.
+  Qed.
+
+  Lemma reconstruct_spec k ds xs : Forall2 reads ds xs -> Forall (fun y => N.to_nat k <= length y)%nat (tl xs) ->
+    reconstruct_contig get k ds = Ok (glue_pieces (N.to_nat k) xs).
+  Proof.
+    intros H Hl. unfold reconstruct_contig. destruct H as [|d x ds xs (b & Eg & Eb) H]; [reflexivity|].
+    cbn [reconstruct_loop]. rewrite Eg. cbn [obnd app]. rewrite Eb. cbn [tl] in Hl.
+    rewrite (reconstruct_later _ _ _ H Hl). reflexivity.
+  Qed.
+
+  Section OneContig.
+    Variables (ecn : name -> name) (k : N) (spl : N -> bool) (segsize : N).
+    Variables (dec : nat -> nat -> decision) (addr : nat -> nat -> N * N).
+
+    Definition reg_of (i : nat) (s c : name) (pc : piece) : registration :=
+      let (g, id) := addr i (p_part pc) in
+      mkReg s c (p_part pc) (mkDesc g id (p_rc pc) (wrap32 (lenN (p_data pc)))) (p_data pc).
+
+    Lemma reg_of_fields i s c pc :
+      r_sample (reg_of i s c pc) = s /\ r_contig (reg_of i s c pc) = c /\ r_place (reg_of i s c pc) = p_part pc /\
+      d_rc (r_desc (reg_of i s c pc)) = p_rc pc /\ r_data (reg_of i s c pc) = p_data pc.
+    Proof. unfold reg_of. destruct (addr i (p_part pc)). cbn. auto. Qed.
+
+    Lemma contig_regs_eq i s c data :
+      contig_regs k spl segsize dec addr i (s, c, data) =
+      obnd (contig_pieces (N.to_nat k) (split_gen true data spl k) (dec i) 0 0)
+           (fun ps => Ok (map (reg_of i s c) ps)).
+    Proof. reflexivity. Qed.
+
+    (* one contig: whatever the arrival order of its registrations, the reader rebuilds the input *)
+    Lemma contig_roundtrip i s c data rs L : 1 <= k <= 32 ->
+      decs_ok (N.to_nat k) (split_gen true data spl k) (dec i) 0 ->
+      contig_regs k spl segsize dec addr i (s, c, data) = Ok rs ->
+      (forall r, In r rs -> get (r_desc r) = Ok (r_data r)) ->
+      Permutation (map (fun r => (r_place r, r_desc r)) rs) L ->
+      reconstruct_contig get k (place_list [] L) = Ok data.
+    Proof.
+      intros Hk Hd E Hget P. rewrite contig_regs_eq in E.
+      assert (Hk' : (1 <= N.to_nat k)%nat) by lia.
+      destruct (contig_pieces_spec _ (dec i) Hk' _ 0%nat 0%nat Hd) as (ps & ps' & Ep & Pp & Np & Up).
+      rewrite Ep in E. cbn [obnd] in E. inversion E; subst rs; clear E.
+      set (pd := fun r => (r_place r, r_desc r)) in *.
+      assert (PL : Permutation L (map pd (map (reg_of i s c) ps'))).
+      { eapply Permutation_trans; [apply Permutation_sym; exact P|]. do 2 apply Permutation_map. exact Pp. }
+      rewrite (place_perm_dense _ _ PL).
+      2:{ rewrite !map_map, !map_length. rewrite <- Np. apply map_ext. intro pc.
+          unfold pd. cbn [fst]. apply reg_of_fields. }
+      destruct (contig_glue_proof true data spl k (dec i) Hk Hd) as (x & r & Ef & Eg & Hl).
+      rewrite (reconstruct_spec k _ (map unorient ps')).
+      - rewrite Up, Ef. cbn [glue_pieces]. rewrite Eg. reflexivity.
+      - rewrite !map_map. clear PL Np Up. assert (Hin : forall pc, In pc ps' -> In pc ps).
+        { intros pc H. apply (Permutation_in _ (Permutation_sym Pp)). assumption. }
+        clear Pp. induction ps' as [|pc ps' IH]; [constructor|]. cbn [map]. constructor.
+        + exists (p_data pc). unfold pd. cbn [snd].
+          destruct (reg_of_fields i s c pc) as (_ & _ & _ & Erc & Edata). rewrite Erc. split; [|reflexivity].
+          rewrite <- Edata. apply Hget. apply in_map. apply Hin. left. reflexivity.
+        + apply IH. intros pc' H. apply Hin. right. assumption.
+      - rewrite Up, Ef. cbn [tl]. exact Hl.
+    Qed.
+  End OneContig.
+End RoundTrip.
+
+(* ---- which registrations belong to which contig *)
+Definition key_of (p : push) : name * name := (fst (fst p), snd (fst p)).
+
+Lemma Permutation_filter {A} (f : A -> bool) l l' : Permutation l l' -> Permutation (filter f l) (filter f l').
+Proof.
+  induction 1 as [|x l l' P IH|x y l|l l' l'' P1 IH1 P2 IH2]; cbn.
+  - constructor.
+  - destruct (f x); [constructor|]; assumption.
+  - destruct (f x), (f y); try apply Permutation_refl. apply perm_swap.
+  - eapply Permutation_trans; eassumption.
+Qed.
+
+Lemma sel_perm ecn s c rs rs' : Permutation rs rs' -> Permutation (sel ecn s c rs) (sel ecn s c rs').
+Proof. intro P. unfold sel. apply Permutation_map. apply Permutation_filter. assumption. Qed.
+Lemma sel_app ecn s c a b : sel ecn s c (a ++ b) = sel ecn s c a ++ sel ecn s c b.
+Proof. unfold sel. rewrite filter_app, map_app. reflexivity. Qed.
+
+Lemma sel_all ecn s c rs : s <> [] -> (forall r, In r rs -> r_sample r = s /\ r_contig r = c) ->
+  sel ecn s c rs = map (fun r => (r_place r, r_desc r)) rs.
+Proof.
+  intros Hs H. unfold sel. f_equal. induction rs as [|r rs IH]; [reflexivity|]. cbn [filter].
+  destruct (H r (or_introl eq_refl)) as [E1 E2]. rewrite E1, E2, stored_name_nonempty by assumption.
+  rewrite !name_eqb_refl. cbn [andb]. f_equal. apply IH. intros; apply H; right; assumption.
+Qed.
+Lemma sel_none ecn s c rs : (forall r, In r rs -> r_sample r <> [] /\ (r_sample r, r_contig r) <> (s, c)) ->
+  sel ecn s c rs = [].
+Proof.
+  intro H. unfold sel. induction rs as [|r rs IH]; [reflexivity|]. cbn [filter].
+  destruct (H r (or_introl eq_refl)) as [E1 E2]. rewrite stored_name_nonempty by assumption.
+  destruct (name_eqb s (r_sample r)) eqn:Es, (name_eqb c (r_contig r)) eqn:Ec; cbn [andb];
+    try (apply IH; intros; apply H; right; assumption).
+  apply name_eqb_eq in Es, Ec. subst. exfalso. apply E2. reflexivity.
+Qed.
+
+Section AllRegs.
+  Variables (ecn : name -> name) (k : N) (spl : N -> bool) (segsize : N).
+  Variables (dec : nat -> nat -> decision) (addr : nat -> nat -> N * N).
+
+  Lemma contig_regs_names i s c data rs : contig_regs k spl segsize dec addr i (s, c, data) = Ok rs ->
+    forall r, In r rs -> r_sample r = s /\ r_contig r = c.
+  Proof.
+    rewrite contig_regs_eq. destruct (contig_pieces _ _ _ _ _) as [ps| |]; cbn [obnd]; try discriminate.
+    intro E. inversion E; subst. intros r Hr. apply in_map_iff in Hr. destruct Hr as (pc & <- & _).
+    destruct (reg_of_fields addr i s c pc) as (E1 & E2 & _). auto.
+  Qed.
+
+  Lemma all_regs_names : forall pushes i regs, all_regs k spl segsize dec addr i pushes = Ok regs ->
+    forall r, In r regs -> exists p, In p pushes /\ key_of p = (r_sample r, r_contig r).
+  Proof.
+    induction pushes as [|p pushes IH]; intros i regs E r Hr; cbn [all_regs] in E.
+    - inversion E; subst. contradiction.
+    - destruct (contig_regs k spl segsize dec addr i p) as [rs0| |] eqn:E0; cbn [obnd] in E; try discriminate.
+      destruct (all_regs k spl segsize dec addr (S i) pushes) as [more| |] eqn:E1; cbn [obnd] in E; try discriminate.
+      inversion E; subst. apply in_app_or in Hr. destruct Hr as [Hr|Hr].
+      + exists p. split; [left; reflexivity|]. destruct p as [[s c] data].
+        destruct (contig_regs_names _ _ _ _ _ E0 r Hr) as [-> ->]. reflexivity.
+      + destruct (IH _ _ E1 r Hr) as (p' & Hp' & Ek). exists p'. split; [right|]; assumption.
+  Qed.
+
+  Lemma all_regs_sel : forall pushes i regs, all_regs k spl segsize dec addr i pushes = Ok regs ->
+    NoDup (map key_of pushes) -> (forall p, In p pushes -> fst (fst p) <> []) ->
+    forall j s c data, nth_error pushes j = Some (s, c, data) ->
+    exists rs, contig_regs k spl segsize dec addr (i + j) (s, c, data) = Ok rs /\
+               sel ecn s c regs = map (fun r => (r_place r, r_desc r)) rs /\
+               (forall r, In r rs -> In r regs).
+  Proof.
+    induction pushes as [|p pushes IH]; intros i regs E ND Hne j s c data Hj; [destruct j; discriminate|].
+    cbn [all_regs] in E.
+    destruct (contig_regs k spl segsize dec addr i p) as [rs0| |] eqn:E0; cbn [obnd] in E; try discriminate.
+    destruct (all_regs k spl segsize dec addr (S i) pushes) as [more| |] eqn:E1; cbn [obnd] in E; try discriminate.
+    inversion E; subst regs; clear E. cbn [map] in ND. inversion ND as [|? ? Hn ND']; subst.
+    destruct j as [|j]; cbn [nth_error] in Hj.
+    - inversion Hj; subst p. exists rs0. rewrite Nat.add_0_r. split; [assumption|]. split.
+      + rewrite sel_app. rewrite (sel_all ecn s c rs0).
+        * rewrite (sel_none ecn s c more); [apply app_nil_r|].
+          intros r Hr. destruct (all_regs_names _ _ _ E1 r Hr) as (p' & Hp' & Ek). split.
+          -- injection Ek as E2 E3. rewrite <- E2. apply Hne. right. assumption.
+          -- intro Eq. apply Hn. change (s, c) with (key_of (s, c, data)). rewrite <- Eq, <- Ek.
+             apply in_map. assumption.
+        * apply (Hne (s, c, data)). left. reflexivity.
+        * apply (contig_regs_names _ _ _ _ _ E0).
+      + intros r Hr. apply in_or_app. left. assumption.
+    - destruct (IH (S i) more E1 ND' (fun p' H => Hne p' (or_intror H)) j s c data Hj) as (rs & Er & Es & Hin).
+      exists rs. replace (i + S j)%nat with (S i + j)%nat by lia. split; [assumption|]. split.
+      + rewrite sel_app, Es. rewrite (sel_none ecn s c rs0); [reflexivity|].
+        intros r Hr. destruct p as [[s0 c0] data0].
+        destruct (contig_regs_names _ _ _ _ _ E0 r Hr) as [-> ->]. split.
+        * apply (Hne (s0, c0, data0)). left. reflexivity.
+        * intro Eq. apply Hn. change (s0, c0) with (key_of (s0, c0, data0)) in Eq. cbn [key_of fst snd].
+          injection Eq as -> ->. change (s, c) with (key_of (s, c, data)). apply in_map.
+          apply nth_error_In with j. assumption.
+      + intros r Hr. apply in_or_app. right. apply Hin. assumption.
+  Qed.
+End AllRegs.
+
+(* ---- the push list of a well-formed sample set *)
+Lemma NoDup_app_intro {A} (a b : list A) : NoDup a -> NoDup b -> (forall x, In x a -> ~ In x b) -> NoDup (a ++ b).
+Proof.
+  induction a as [|x a IH]; intros Ha Hb Hd; [assumption|]. inversion Ha; subst. cbn. constructor.
+  - intro H. apply in_app_or in H. destruct H; [contradiction|]. apply (Hd x); [left; reflexivity | assumption].
+  - apply IH; try assumption. intros y Hy. apply Hd. right. assumption.
+Qed.
+
+Lemma pushes_keys samples : forall p, In p (pushes_of samples) ->
+  exists s c, In s samples /\ In c (snd s) /\ p = (fst s, fst c, snd c).
+Proof.
+  intros p H. unfold pushes_of in H. apply in_flat_map in H. destruct H as (s & Hs & H).
+  apply in_map_iff in H. destruct H as (c & <- & Hc). exists s, c. auto.
+Qed.
+
+Lemma pushes_nodup samples : NoDup (map fst samples) -> contig_names_ok samples ->
+  NoDup (map key_of (pushes_of samples)).
+Proof.
+  induction samples as [|s samples IH]; intros ND Hc; [constructor|].
+  cbn [map] in ND. inversion ND as [|? ? Hn ND']; subst. inversion Hc as [|? ? Hc1 Hc2]; subst.
+  rewrite pushes_of_cons, map_app. apply NoDup_app_intro.
+  - rewrite map_map. unfold key_of. cbn [fst snd].
+    clear - Hc1. induction (snd s) as [|c cs IHc]; [constructor|]. cbn [map] in *. inversion Hc1; subst.
+    constructor; [|apply IHc; assumption]. intro H. apply in_map_iff in H. destruct H as (c' & E & Hc').
+    injection E as E. apply H1. rewrite <- E. apply in_map. assumption.
+  - apply IH; assumption.
+  - intros x Hx Hx'. apply in_map_iff in Hx. destruct Hx as (p & <- & Hp).
+    apply in_map_iff in Hp. destruct Hp as (c & <- & Hcin).
+    apply in_map_iff in Hx'. destruct Hx' as (p' & E & Hp'). apply pushes_keys in Hp'.
+    destruct Hp' as (s' & c' & Hs' & _ & ->). unfold key_of in E. cbn [fst snd] in E. injection E as E _.
+    apply Hn. rewrite <- E. apply in_map. assumption.
+Qed.
+
+Lemma pushes_nonempty samples : inputs_ok samples -> forall p, In p (pushes_of samples) -> fst (fst p) <> [].
+Proof.
+  intros [_ H] p Hp. apply pushes_keys in Hp. destruct Hp as (s & c & Hs & _ & ->). cbn [fst].
+  rewrite Forall_forall in H. apply (H s Hs).
+Qed.
+
+(* ---- reading the catalogue back *)
+Lemma find_build sh V s0 : NoDup (map fst sh) -> In s0 sh ->
+  find (is_named (fst s0)) (build sh V) = Some (fst s0, map (fun c => (c, V (fst s0) c)) (snd s0)).
+Proof.
+  induction sh as [|x sh IH]; intros ND Hin; [contradiction|].
+  cbn [map] in ND. inversion ND as [|? ? Hn ND']; subst. cbn [build map find]. unfold is_named at 1. cbn [fst].
+  destruct (name_eqb (fst x) (fst s0)) eqn:E.
+  - apply name_eqb_eq in E. destruct Hin as [->|Hin]; [reflexivity|].
+    exfalso. apply Hn. rewrite E. apply in_map. assumption.
+  - destruct Hin as [->|Hin]; [rewrite name_eqb_refl in E; discriminate|]. apply IH; assumption.
+Qed.
+
+Section Extract.
+  Variable get : seg_desc -> outcome (list N).
+  Lemma reconstruct_all_ok k V sn : forall cs : list (name * list N),
+    (forall c, In c cs -> reconstruct_contig get k (V sn (fst c)) = Ok (snd c)) ->
+    reconstruct_all get k (map (fun c => (c, V sn c)) (map fst cs)) = Ok cs.
+  Proof.
+    induction cs as [|c cs IH]; intro H; [reflexivity|]. cbn [map reconstruct_all].
+    rewrite (H c (or_introl eq_refl)). cbn [obnd]. rewrite IH by (intros; apply H; right; assumption).
+    cbn [obnd]. destruct c; reflexivity.
+  Qed.
+  Lemma extract_samples_ok k coll : forall samples : list (name * list (name * list N)),
+    (forall s, In s samples -> get_sample get k coll (fst s) = Ok (snd s)) ->
+    extract_samples get k coll (map fst samples) = Ok samples.
+  Proof.
+    induction samples as [|s samples IH]; intro H; [reflexivity|]. cbn [map extract_samples].
+    rewrite (H s (or_introl eq_refl)). cbn [obnd]. rewrite IH by (intros; apply H; right; assumption).
+    cbn [obnd]. destruct s; reflexivity.
+  Qed.
+End Extract.
+
+(* what find_split_by_cost guarantees, for every raw segment of every pushed contig *)
+Definition decisions_ok (k : N) (spl : N -> bool) (segsize : N) (dec : nat -> nat -> decision)
+           (pushes : list push) : Prop :=
+  forall i s c data j sg, nth_error pushes i = Some (s, c, data) ->
+    nth_error (split_at_splitters_with_size data spl k segsize) j = Some sg ->
+    decision_okb (N.to_nat k) sg (dec i j) = true.
+
+Lemma create_extract_roundtrip_proof :
+  forall ecn get k spl segsize dec addr sched samples coll stored,
+  1 <= k <= 32 ->
+  inputs_ok samples ->
+  decisions_ok k spl segsize dec (pushes_of samples) ->
+  (forall l, Permutation l (sched l)) ->
+  create ecn k spl segsize dec addr sched (pushes_of samples) = Ok (coll, stored) ->
+  stored_ok get stored ->
+  contig_names_ok samples /\ extract_all get k coll = Ok samples.
+Proof.
+  intros ecn get k spl segsize dec addr sched samples coll stored Hk Hin Hdec Hsched Hc Hst.
+  unfold create in Hc.
+  destruct (register_all ecn [] (pushes_of samples)) as [coll0| |] eqn:Er; cbn [obnd] in Hc; try discriminate.
+  destruct (all_regs k spl segsize dec addr 0 (pushes_of samples)) as [regs| |] eqn:Ea; cbn [obnd] in Hc;
+    try discriminate.
+  inversion Hc; subst coll stored; clear Hc.
+  destruct (register_all_ok ecn samples coll0 Hin Er) as [Hnames ->]. split; [assumption|].
+  pose proof (shape_of_ok samples Hin Hnames) as Hsh.
+  rewrite (place_all_build ecn _ Hsh).
+  unfold extract_all, list_samples.
+  assert (Enames : map fst (build (shape_of samples) (fun s c => place_list [] (sel ecn s c (sched regs))))
+                   = map fst samples).
+  { unfold build, shape_of. rewrite !map_map. reflexivity. }
+  rewrite Enames. apply extract_samples_ok. intros s Hs.
+  unfold get_sample.
+  assert (Hs' : In (fst s, map fst (snd s)) (shape_of samples)).
+  { unfold shape_of. apply in_map_iff. exists s. auto. }
+  rewrite (find_build _ _ (fst s, map fst (snd s)) (proj1 Hsh) Hs'). cbn [fst snd].
+  apply reconstruct_all_ok. intros c Hcin.
+  (* the push of this contig *)
+  assert (Hp : In (fst s, fst c, snd c) (pushes_of samples)).
+  { unfold pushes_of. apply in_flat_map. exists s. split; [assumption|]. apply in_map_iff. exists c. auto. }
+  apply In_nth_error in Hp. destruct Hp as [j Hj].
+  destruct (all_regs_sel ecn k spl segsize dec addr _ _ _ Ea (pushes_nodup _ (proj1 Hin) Hnames)
+                         (pushes_nonempty _ Hin) j _ _ _ Hj) as (rs & Ers & Esel & Hrs).
+  cbn [Nat.add] in Ers.
+  apply (contig_roundtrip get k spl segsize dec addr j (fst s) (fst c) (snd c) rs); try assumption.
+  - intros i sg Hsg. rewrite Nat.add_0_l. apply (Hdec j (fst s) (fst c) (snd c) i sg Hj). exact Hsg.
+  - intros r Hr. apply (Hst (r_desc r) (r_data r)). apply in_map_iff. exists r. split; [reflexivity|].
+    apply Hrs. assumption.
+  - rewrite <- Esel. apply sel_perm. apply Hsched.
+Qed.
+
+(* a repeated contig name in a sample: create fails *)
+Lemma duplicate_name_rejected_proof :
+  forall ecn k spl segsize dec addr sched samples,
+  inputs_ok samples -> ~ contig_names_ok samples ->
+  create ecn k spl segsize dec addr sched (pushes_of samples) = Err.
+Proof.
+  intros ecn k spl segsize dec addr sched samples Hin Hbad. unfold create.
+  destruct (reg_samples ecn samples [] (fun _ _ _ F => match F with end) Hin) as [_ H2].
+  rewrite (H2 Hbad). reflexivity.
 Qed.
